@@ -56,6 +56,8 @@ def regress_main(args):
         try:
             with open(path) as f:
                 rep = json.load(f)
+            if os.sep + "replays" + os.sep in path and rep.get("key") not in known:
+                continue    # an un-triaged replay of an earlier run: only curated inputs (open findings, regress/) are replayed
             sub = subs[rep["subcheck"]]
             import signal
 
@@ -76,7 +78,8 @@ def regress_main(args):
         if key in known:
             known_hits.setdefault(key, {"count": 0, "case": rep["case"], "detail": detail})["count"] += 1
         elif key not in [v["key"] for v in found]:
-            found.append({"key": key, "detail": f"[saved input {os.path.relpath(path, VERIF_DIR)}] {detail}", "case": rep["case"]})
+            found.append({"key": key, "detail": f"[saved input {os.path.relpath(path, VERIF_DIR)}] {detail}", "case": rep["case"],
+                          "subcheck": rep["subcheck"]})
     res = {"sub": "__replays__", "shard": 0, "shard_seed": 0, "examples": n, "distinct": n, "nontrivial_hashes": [], "events": {"saved-inputs-replayed": n},
            "samples": [], "nontrivial_samples": [], "inconclusive": {}, "worst": {}, "extra": {}, "stat_tests": [], "violations": found,
            "known_hits": known_hits, "harness_error": ("; ".join(errors) if errors else None), "wall_s": time.time() - t0}
@@ -233,7 +236,7 @@ def orchestrate(args):
         fname = "".join(c if c.isalnum() or c in "._-" else "_" for c in v["key"])[:120]
         path = os.path.join(rep_dir, f"{fname}-seed{args.seed}.json")
         with open(path, "w") as f:
-            json.dump({"property": prop, "subcheck": subname, "key": v["key"], "detail": v["detail"],
+            json.dump({"property": prop, "subcheck": v.get("subcheck", subname), "key": v["key"], "detail": v["detail"],
                        "case": v["case"], "seed": args.seed, "tier": args.tier}, f, indent=1,
                       default=core._json_default)
         seen_keys[v["key"]] = path
